@@ -209,7 +209,7 @@ class Gen:
 
     # -- terms ---------------------------------------------------------------
     def term(self, targets, n_obj=None, kinds="AAMSNVfD", hyper_prob=0.0,
-             trace_prob=0.05, pref=None, shapes=None):
+             trace_prob=0.05, pref=None, shapes=None, repeat_targets=0.0):
         """A term whose free indices are exactly `targets` (list of (name,
         spin)); every other index occurs exactly twice (or three/four times
         with probability hyper_prob, which needs explicit targets)."""
@@ -246,6 +246,13 @@ class Gen:
                 s = c[0]
                 free.remove(s)
                 assign[s] = tg
+                # explicit targets may occur more than once in a term
+                if repeat_targets and r.random() < repeat_targets:
+                    c2 = [x for x in free if fixed(x) in (None, sp)
+                          and x[0] != s[0]]
+                    if c2:
+                        free.remove(c2[0])
+                        assign[c2[0]] = tg
             if not ok:
                 continue
             used = {t[0] for t in targets}
